@@ -1,10 +1,11 @@
 /-
   Driver for C02: line = "scenario<TAB>implObs"; see harness/props/c02/run.go for both formats.
 
-  The model judged with is `Cfg.code` — the code as it is, the three repairs of notes/C02.fix-{1,2,3}.patch included
+  The model judged with is `Cfg.code` — the code as it is, the repairs of notes/C02.fix-{1,2,3,5,6}.patch included
   (input prefix `legacy`: `(legacy (wf …) …)` evaluates the code as it was; by hand only). `hyp` is `Trans.judge`'s
-  verdict: it names only the three open DEPLOY corners; a violation anywhere else — in particular in one of the four
-  repaired corners — is "-", i.e. a plain VIOLATION.
+  verdict: it names only the two open DEPLOY corners (deploy_misses_active = a TASK_RUNNING update that overtakes the
+  roster, deploy_noncritical_blocks); a violation anywhere else — in particular in one of the repaired corners — is
+  "-", i.e. a plain VIOLATION.
 
   Four things the environment decides, not the input, are inferred from what the implementation did
   (the model is evaluated for each choice and the first one that reproduces the observation is printed):
@@ -15,9 +16,16 @@
       scheduler client: the master never sees them (they are missing from the observed command set) and the core
       treats them as undeliverable; only considered for the request with the `undeliv` script (always the last one
       observed) and only for targets the master did not see;
-    * early — TASK_RUNNING updates that overtake the roster (`Launch.okEarly`) and/or the dropped "root is ACTIVE"
-      notification (`Workflow.notifyLost`) — the harness cannot tell the two apart; only considered when the harness
-      attests that every task was running and acknowledged by the core well before DEPLOY gave up (`running-acked`);
+    * early — TASK_RUNNING updates that overtake the roster (`Launch.okEarly`); only considered when the harness
+      attests that every task was running and acknowledged by the core well before DEPLOY gave up AND that by the
+      core's own account (its time-out error lists the roles that are not ACTIVE) some role was not ACTIVE then
+      (`running-acked`). When that account lists NO such role the atom is `active-unseen` instead: DEPLOY gave up with
+      every role ACTIVE — the former mechanism (b) of deploy_misses_active (the dropped "root is ACTIVE" notification,
+      `Workflow.notifyLost`), repaired by `fix: DEPLOY cannot miss that the workflow became active`. The model of the
+      code as it is never answers that atom (`C02_active_never_unseen_code`; where the loop is when the root becomes
+      ACTIVE makes no difference to it: `C02_deploy_heard_code`), `judge` does not name the corner: a regression is a
+      disagreement and a plain VIOLATION. (The choice `notifyLost` is still tried: it explains `active-unseen` for the
+      `legacy` prefix, by hand.)
     * watcherFirst — see `Trans.controlRpc`; only possible when a critical target went to ERROR / died in a
       command that some target keeps waiting for its time-out, or when the executor / agent of a critical live task
       was lost during the request (`Trans.controlStep`: the state in the reply of a request that succeeded).
@@ -177,6 +185,7 @@ def obsSx (o : Obs) : SExp :=
   let cmd := SExp.list (o.cmd.map SExp.ofNat)
   match o.ev with
   | none => .list ([.atom "new", .atom (rpcName o.rpc), st, af, cmd] ++ (if o.runningAcked then [.atom "running-acked"] else []) ++
+      (if o.activeUnseen then [.atom "active-unseen"] else []) ++
       (match o.att with
        | some att => [.list (.atom "att" :: att.map (fun l => SExp.list (l.map SExp.ofNat)))]
        | none => []) ++ (if o.verdictLost then [.atom "verdict-lost"] else []))
@@ -199,24 +208,26 @@ def parseAtt : SExp → Option (List (List Nat))
   | .list (.atom "att" :: as) => as.mapM? (fun l => match l with | .list is => is.mapM? SExp.nat? | _ => none)
   | _ => none
 
+/-- The optional elements of a NewEnvironment observation, in their order:
+    `[running-acked | active-unseen] [(att …)] [verdict-lost]`. -/
+def parseNewFlags (o : Obs) : List SExp → Option Obs
+  | [] => some o
+  | .atom "running-acked" :: rest =>
+    if o.runningAcked || o.activeUnseen || o.att.isSome || o.verdictLost then none
+    else parseNewFlags { o with runningAcked := true } rest
+  | .atom "active-unseen" :: rest =>
+    if o.runningAcked || o.activeUnseen || o.att.isSome || o.verdictLost then none
+    else parseNewFlags { o with activeUnseen := true } rest
+  | .list (.atom "att" :: as) :: rest =>
+    if o.att.isSome || o.verdictLost then none
+    else do parseNewFlags { o with att := some (← parseAtt (.list (.atom "att" :: as))) } rest
+  | [.atom "verdict-lost"] => if o.verdictLost then none else some { o with verdictLost := true }
+  | _ => none
+
 def parseObs : SExp → Option Obs
-  | .list [.atom "new", .atom r, .atom s, .atom a, .list cmd, .list att] => do
-    pure { ev := none, rpc := ← parseRpc r, state := ← parseSt s, after := ← parseSt a, cmd := ← cmd.mapM? SExp.nat?,
-           att := some (← parseAtt (.list att)) }
-  | .list [.atom "new", .atom r, .atom s, .atom a, .list cmd, .atom "running-acked", .list att] => do
-    pure { ev := none, rpc := ← parseRpc r, state := ← parseSt s, after := ← parseSt a, cmd := ← cmd.mapM? SExp.nat?,
-           runningAcked := true, att := some (← parseAtt (.list att)) }
-  | .list [.atom "new", .atom r, .atom s, .atom a, .list cmd, .list att, .atom "verdict-lost"] => do
-    pure { ev := none, rpc := ← parseRpc r, state := ← parseSt s, after := ← parseSt a, cmd := ← cmd.mapM? SExp.nat?,
-           att := some (← parseAtt (.list att)), verdictLost := true }
-  | .list [.atom "new", .atom r, .atom s, .atom a, .list cmd] => do
-    pure { ev := none, rpc := ← parseRpc r, state := ← parseSt s, after := ← parseSt a, cmd := ← cmd.mapM? SExp.nat? }
-  | .list [.atom "new", .atom r, .atom s, .atom a, .list cmd, .atom "running-acked"] => do
-    pure { ev := none, rpc := ← parseRpc r, state := ← parseSt s, after := ← parseSt a, cmd := ← cmd.mapM? SExp.nat?,
-           runningAcked := true }
-  | .list [.atom "new", .atom r, .atom s, .atom a, .list cmd, .atom "verdict-lost"] => do
-    pure { ev := none, rpc := ← parseRpc r, state := ← parseSt s, after := ← parseSt a, cmd := ← cmd.mapM? SExp.nat?,
-           verdictLost := true }
+  | .list (.atom "new" :: .atom r :: .atom s :: .atom a :: .list cmd :: flags) => do
+    parseNewFlags { ev := none, rpc := ← parseRpc r, state := ← parseSt s, after := ← parseSt a,
+                    cmd := ← cmd.mapM? SExp.nat? } flags
   | .list [.atom "ctl", .atom e, .atom r, .atom s, .atom a, .list cmd] => do
     pure { ev := some (← Ev.parse? e), rpc := ← parseRpc r, state := ← parseSt s, after := ← parseSt a,
            cmd := ← cmd.mapM? SExp.nat? }
@@ -289,7 +300,10 @@ def gate (w : Bool) (tasks : List Task) : List SStep → List SStep
 
 /-- The harness cannot tell which updates overtook the roster: all of them, in the variant. -/
 def early (wf : Workflow) : Workflow :=
-  { wf with tasks := wf.tasks.map (fun t => if t.2 = .ok then (t.1, .okEarly) else t), notifyLost := true }
+  { wf with tasks := wf.tasks.map (fun t => if t.2 = .ok then (t.1, .okEarly) else t) }
+
+/-- The DEPLOY loop is elsewhere when the root becomes ACTIVE (nothing follows from it for the code as it is). -/
+def unheard (wf : Workflow) : Workflow := { wf with notifyLost := true }
 
 def variant (sc : Scenario) (lossy w : Bool) : Scenario :=
   let conf := if lossy then lose sc.configure else sc.configure
@@ -329,7 +343,8 @@ def processLine (line : String) : String :=
       let lw := [(false, false), (false, true), (true, false), (true, true)]
       -- the environment choices, as transformations of a scenario
       let choices : List (Scenario → Scenario) :=
-        lw.map (fun (l, w) => fun (s : Scenario) => variant s l w) ++ [fun (s : Scenario) => { s with wf := early s.wf }]
+        lw.map (fun (l, w) => fun (s : Scenario) => variant s l w) ++
+          [fun (s : Scenario) => { s with wf := early s.wf }, fun (s : Scenario) => { s with wf := unheard s.wf }]
       -- calls lost in the client: only for the last observed request, only if it has an undeliverable target
       let lost : List ((Scenario × Scenario) × String) :=
         match implObs with
@@ -356,10 +371,11 @@ def processLine (line : String) : String :=
           let verdict := match offers with
             | none => judgeDl (judge c) os
             | some off =>
-              -- the chosen environment choices (requests' outcomes; TASK_RUNNING overtaking / ACTIVE notification
-              -- dropped) on the scenario as written; what was deployed is judged on the last offers round that took
-              -- place according to the observed attempts
-              let scripts : Workflow := if c.wf.notifyLost then early scS0.wf else scS0.wf
+              -- the chosen environment choices (requests' outcomes; TASK_RUNNING overtaking; ACTIVE notification
+              -- finding the loop elsewhere) on the scenario as written; what was deployed is judged on the last offers
+              -- round that took place according to the observed attempts
+              let scripts : Workflow :=
+                if earlyRunning c.wf.tasks then early scS0.wf else if c.wf.notifyLost then unheard scS0.wf else scS0.wf
               judgeDl (judgeO (toO { wf := scripts, configure := c.configure, steps := c.steps } off)) os
           match verdict with
           | none => (true, "-")
